@@ -76,10 +76,10 @@ func verifC19Window(tpl string, shape func(t *verifC19Tx)) {
 }
 
 type verifC19FilterSpec struct {
-	nilFilter          bool
-	voteUnset, fUnset  bool
-	incl, excl, req    []string
-	vote, failed       bool // symbolic
+	nilFilter         bool
+	voteUnset, fUnset bool
+	incl, excl, req   []string
+	vote, failed      bool // symbolic
 }
 
 var verifC19Lists = [][]string{nil, {verifC19AcctA}, {verifC19AcctA, verifC19AcctB}, {verifC19AcctB}}
